@@ -255,7 +255,7 @@ func TestVerifC02Errors(t *testing.T) {
 	res := env.NewResult()
 	cases := env.NewCases(res, "error-responses-end-to-end")
 	for _, transport := range []string{"inmem", "http-stateful-sse", "http-stateful-json", "http-stateless-modern", "http-stateless-modern-json"} {
-		for _, code := range []int64{-32602, -32022, -32021, -32000, -32050, 1, 4242} {
+		for _, code := range []int64{-32602, -32022, -32021, -32000, -32050, 1, 4242, -32700, -32600, -32603, -32001, -32002, -32003, -32004, -32005} {
 			for _, notifyFirst := range []bool{false, true} {
 				idx, mine := cases.Next()
 				if !mine {
